@@ -25,7 +25,8 @@
 (***************************************************************************)
 EXTENDS Naturals, FiniteSets, Sequences, TLC
 
-CONSTANTS Setters, Waiters, MaxH, MaxG, UseCAS
+CONSTANTS Setters, Waiters, MaxH, MaxG, UseCAS,
+          WithInit     \* design model only: Init(h) calls (heads moved down by deletions) are part of the environment
 
 Hs == 1..MaxH
 Gs == 1..MaxG
@@ -34,6 +35,7 @@ Init0 == [height |-> 0, stored |-> {},
           spc  |-> [s \in Setters |-> "idle"], scur |-> [s \in Setters |-> 0], stgt |-> [s \in Setters |-> 0],
           wpc  |-> [w \in Waiters |-> "idle"], wres |-> [w \in Waiters |-> ""], want |-> [w \in Waiters |-> 0],
           sac  |-> [w \in Waiters |-> 0], wcan |-> [w \in Waiters |-> FALSE],
+          av   |-> [w \in Waiters |-> FALSE],   \* history: the waiter's height has been available at some moment since its call
           gen  |-> [h \in Hs |-> 0], cnt |-> [g \in Gs |-> 0], open |-> [g \in Gs |-> FALSE], ng |-> 0]
 
 \* notify(h, all): under the lock.  Waiters blocked in the select on a signal that is closed return nil within this step.
@@ -107,8 +109,15 @@ WCancel(st, w) ==
        THEN {[NotifyOne(st, st.want[w], FALSE) EXCEPT !.wpc[w] = "done", !.wres[w] = "ctx", !.wcan[w] = TRUE]}
        ELSE {[st EXCEPT !.wcan[w] = TRUE]}
 
-Do(st, p, a, x) ==
+\* ---- Init(h): the head was moved down (setHead after a head-side deletion, ensureInit after a wipe): the height is
+\* stored without a CAS, every record below it is released; what is available now ends at h.  Init itself leaves a waiter
+\* of exactly h alone; in the Store the header of that height is there already or is notified right afterwards by the flush
+\* that initialised the store, so the step modelled (and driven by the harness) is Init(h) followed by Notify(h) ----
+ICall(st, h) == IF h \notin Hs THEN {} ELSE {NotifyRange([st EXCEPT !.height = h, !.stored = 1..h], 1, h)}
+
+Do0(st, p, a, x) ==
   CASE p \in Setters /\ a = "call"   -> SCall(st, p, x)
+    [] p = "I"       /\ a = "call"   -> ICall(st, x)
     [] p \in Setters /\ a = "step"   -> (IF st.spc[p] = "loaded" THEN SStepLoaded(st, p)
                                          ELSE IF st.spc[p] = "swapped" THEN SStepSwapped(st, p) ELSE {})
     [] p = "N"       /\ a = "call"   -> NCall(st, x)
@@ -118,11 +127,15 @@ Do(st, p, a, x) ==
     [] p \in Waiters /\ a = "cancel" -> WCancel(st, p)
     [] OTHER -> {}
 
+Upd(s) == [s EXCEPT !.av = [w \in Waiters |-> s.av[w] \/ (s.wpc[w] # "idle" /\ s.want[w] \in s.stored)]]
+Do(st, p, a, x) == {Upd(s) : s \in Do0(st, p, a, x)}
+
 -----------------------------------------------------------------------------
 (* design model *)
 VARIABLE st
 Init == st = Init0
-Next == \E p \in Setters \cup Waiters \cup {"N"}, a \in {"call", "step", "cancel"}, x \in Hs : st' \in Do(st, p, a, x)
+Next == \E p \in Setters \cup Waiters \cup {"N"} \cup (IF WithInit THEN {"I"} ELSE {}), a \in {"call", "step", "cancel"}, x \in Hs :
+           st' \in Do(st, p, a, x)
 Spec == Init /\ [][Next]_st
 
 \* a setter only ever raises its targets (in the Store: the head only walks up between two Init calls)
@@ -134,6 +147,16 @@ OkIsStored == \A w \in Waiters : st.wres[w] = "ok" => st.want[w] \in st.stored
 ElapsedIsRight == \A w \in Waiters : st.wres[w] = "elapsed" => st.height >= st.want[w]
 \* no lost wake-up: once every SetHeight has returned, nobody is left blocked on a height that is available
 NoLostWakeup == Quiet => \A w \in Waiters : st.wpc[w] = "waiting" => st.want[w] \notin st.stored /\ st.want[w] > st.height
+\* nil is returned only to a waiter whose height has been available at some moment since its call.  It holds without
+\* deletions (HeightSub.cfg).  With Init calls in the history (a head moved down by a deletion) it does NOT hold for the
+\* code, in two ways TLC shows: (1) a SetHeight parked between its CAS and its notification notifies, after an Init, a
+\* height that was deleted before the waiter even called; (2) a waiter whose record was closed while it sat between its
+\* subscription and its select, and whose context is cancelled, may take the context branch (Go picks either ready case) and
+\* call notify(height, false), which works on whatever record the map holds NOW — the record of a LATER waiter of the same
+\* height.  Either way a waiter is released although its height was never available to it (GetByHeight then answers
+\* "not found" for a height above Height()).  HeightSubInit.cfg must refute OkWasAvailable: a recorded observation, outside
+\* C12's quantifier (appends, cancellations, other waiters — no deletions) and C17's (a tail-side deleter only).
+OkWasAvailable == \A w \in Waiters : st.wres[w] = "ok" => st.av[w]
 \* a cancelled context releases the caller (it is never left in the select)
 CancelReleases == \A w \in Waiters : st.wcan[w] => st.wpc[w] # "waiting"
 \* the published height is covered by what is available
